@@ -1,0 +1,6 @@
+//go:build !verif
+
+package transport_controller
+
+// verifOpDone is a no-op unless built with the verif tag.
+func verifOpDone() {}
